@@ -304,7 +304,14 @@ def generate(o):
         ret = one([s for s in f.body if isinstance(s, ast.Return)], "estimate_values_above: return")
         calls = [ast.unparse(n) for n in ast.walk(ret.value) if isinstance(n, ast.Call) and ast.unparse(n.func) == "distogram.count_at"]
         k = one(calls, "count_at call")
-        return lean(ret.value, {"self.count": "count", "self.missing": "missing", k: "c"})
+        env = {"self.count": "count", "self.missing": "missing", k: "c"}
+        # the histogram's own total (`distogram.count(<the Distogram>)`, `<the Distogram>.count()`) is the parameter `total`
+        for n in ast.walk(ret.value):
+            if isinstance(n, ast.Call) and not n.keywords and ((ast.unparse(n.func) == "distogram.count" and len(n.args) == 1)
+                                                               or (isinstance(n.func, ast.Attribute) and n.func.attr == "count" and not n.args
+                                                                   and "gram" in ast.unparse(n.func.value))):
+                env[ast.unparse(n)] = "total"
+        return lean(ret.value, env)
 
     v["above"] = o.item("distogram.expr.estimate_values_above", above, PIN["above"])
 
@@ -333,6 +340,12 @@ def eqK (a b : K) : Bool := decide (a ≤ b) && decide (b ≤ a)
             # the source uses a quantity the skeleton does not pass: keep the pinned expression, report it
             o.degraded.append("distogram.expr.%s (uses %s)" % (key, sorted(free - set(params))))
             text = PIN[key]
+        lits = set(re.findall(r"(?<![A-Za-z_0-9.])\d+(?![A-Za-z_0-9])", text)) - {"0", "1", "2"}
+        if lits:
+            # the carrier only promises the numerals 0, 1 and 2 (`OfNat K n`): another constant cannot be stated over every
+            # ordered field without changing the models' signature -> pinned expression, carried by correspondence
+            o.degraded.append("distogram.expr.%s (numeric literal %s)" % (key, sorted(lits)))
+            text = PIN[key]
         if prop:
             # guards are Bool-valued (`decide` of the translated proposition): `if guard then …` in the models
             # then carries the standard Bool instance and unfolds cleanly in proofs
@@ -353,26 +366,26 @@ def eqK (a b : K) : Bool := decide (a ≤ b) && decide (b ≤ a)
     d("`count_at`: at the minimum", "countAtMin", ["x", "lo", "hi"], "Bool", "count.at_min")
     d("`count_at`: at the maximum", "countAtMax", ["x", "lo", "hi"], "Bool", "count.at_max")
     d("`count_at`: left-tail guard", "countLeftTest", ["x", "lo", "hi", "v0", "vl"], "Prop", "count.left_test", True)
-    d("`count_at`: left-tail ratio", "countLeftRatio", ["x", "lo", "hi", "v0", "f0"], "K", "count.left_ratio")
-    d("`count_at`: left-tail result", "countLeftResult", ["ratio", "x", "lo", "hi", "v0", "f0"], "K", "count.left_result")
+    d("`count_at`: left-tail ratio", "countLeftRatio", ["x", "lo", "hi", "v0", "f0", "vl", "fl"], "K", "count.left_ratio")
+    d("`count_at`: left-tail result", "countLeftResult", ["ratio", "x", "lo", "hi", "v0", "f0", "vl", "fl"], "K", "count.left_result")
     d("`count_at`: right-tail guard", "countRightTest", ["x", "lo", "hi", "v0", "vl"], "Prop", "count.right_test", True)
-    d("`count_at`: right-tail ratio", "countRightRatio", ["x", "lo", "hi", "vl", "fl"], "K", "count.right_ratio")
-    d("`count_at`: right-tail result (`S` = counts before the last bin)", "countRightResult", ["ratio", "x", "lo", "hi", "vl", "fl", "S"], "K", "count.right_result")
+    d("`count_at`: right-tail ratio", "countRightRatio", ["x", "lo", "hi", "v0", "f0", "vl", "fl"], "K", "count.right_ratio")
+    d("`count_at`: right-tail result (`S` = counts before the last bin)", "countRightResult", ["ratio", "x", "lo", "hi", "v0", "f0", "vl", "fl", "S"], "K", "count.right_result")
     d("`count_at`: interior, interpolated frequency at `x`", "countMb", ["x", "vi", "fi", "vj", "fj"], "K", "count.mb")
     d("`count_at`: interior result (`S` = counts before bin `i`)", "countInteriorResult", ["x", "mb", "vi", "fi", "vj", "fj", "S"], "K", "count.interior_result")
     d("`quantile`: argument accepted", "quantInRange", ["p"], "Prop", "quant.in_range", True)
     d("`quantile`: the number handed to `int()`", "quantCountArg", ["total", "p"], "K", "quant.qcount_arg")
     d("`quantile`: left guard", "quantLeftTest", ["q", "total", "f0", "fl"], "Prop", "quant.left_test", True)
-    d("`quantile`: left fraction", "quantLeftFraction", ["q", "total", "f0"], "K", "quant.left_fraction")
-    d("`quantile`: left result", "quantLeftResult", ["fraction", "q", "lo", "v0", "f0"], "K", "quant.left_result")
+    d("`quantile`: left fraction", "quantLeftFraction", ["q", "total", "f0", "fl"], "K", "quant.left_fraction")
+    d("`quantile`: left result", "quantLeftResult", ["fraction", "q", "lo", "hi", "v0", "f0", "vl", "fl"], "K", "quant.left_result")
     d("`quantile`: right guard", "quantRightTest", ["q", "total", "f0", "fl"], "Prop", "quant.right_test", True)
-    d("`quantile`: right base", "quantRightBase", ["q", "total", "fl"], "K", "quant.right_base")
-    d("`quantile`: right fraction", "quantRightFraction", ["base", "q", "total", "fl"], "K", "quant.right_fraction")
-    d("`quantile`: right result", "quantRightResult", ["fraction", "base", "vl", "hi", "fl"], "K", "quant.right_result")
-    d("`quantile`: interior offset", "quantMb", ["q", "total", "f0"], "K", "quant.mb")
+    d("`quantile`: right base", "quantRightBase", ["q", "total", "f0", "fl"], "K", "quant.right_base")
+    d("`quantile`: right fraction", "quantRightFraction", ["base", "q", "total", "f0", "fl"], "K", "quant.right_fraction")
+    d("`quantile`: right result", "quantRightResult", ["fraction", "base", "lo", "hi", "v0", "f0", "vl", "fl"], "K", "quant.right_result")
+    d("`quantile`: interior offset", "quantMb", ["q", "total", "f0", "fl"], "K", "quant.mb")
     d("`quantile`: `mids[i]`", "quantMid", ["fi", "fj"], "K", "quant.mid")
     d("`quantile`: the walk stops at the first running sum above `mb`", "quantWalkTest", ["mb", "cum"], "Prop", "quant.walk_test", True)
     d("`quantile`: interior fraction (`acc` = sum(mids[:i]))", "quantInteriorFraction", ["mb", "acc", "mid"], "K", "quant.interior_fraction")
     d("`quantile`: interior result", "quantInteriorResult", ["fraction", "vi", "vj"], "K", "quant.interior_result")
-    d("`ColumnProfile.estimate_values_above`: `c` = count_at(point)", "estimateAbove", ["count", "missing", "c"], "K", "above")
+    d("`ColumnProfile.estimate_values_above`: `c` = count_at(point), `total` = the sum of the histogram's counts", "estimateAbove", ["count", "missing", "total", "c"], "K", "above")
     o.files["DistogramExpr.lean"] = hdr + "\n".join(defs) + "\nend Gen.DistogramExpr\n"
